@@ -153,9 +153,11 @@ SubReqs == { << <<FV1, 1>> >>, << <<FV1, 0>>, <<FV2, 2>> >>, << <<FV3, 2>>, <<FV
              << <<FI1, 1>> >>, << <<FV1, 1>>, <<FI2, 0>>, <<FV2, 2>> >>, << <<FV2, 3>> >>, << <<FV1, 3>>, <<FV4, 1>> >>,
              << <<FV1, 0>>, <<FV2, 1>>, <<FV3, 2>>, <<FV4, 0>>, <<FV5, 1>> >>,
              << <<FV1, 2>>, <<FV2, 2>>, <<FV3, 2>>, <<FV4, 2>>, <<FV5, 2>>, <<FI3, 1>>, <<FV1, 0>>, <<FV2, 0>>, <<FV3, 1>> >>,
-             << <<FL, 1>>, <<FV1, 2>> >>, << <<FV2, 1>>, <<FL, 0>>, <<FV3, 1>> >> }
+             << <<FL, 1>>, <<FV1, 2>> >>, << <<FV2, 1>>, <<FL, 0>>, <<FV3, 1>> >>,
+             \* 130 entries: the SUBACK's remaining length needs two bytes
+             [i \in 1..130 |-> <<IF i % 2 = 0 THEN FV1 ELSE FV5, i % 3>>] }
 UnsubReqs == { <<FV1>>, <<FV1, FV2>>, <<FV3, FV3>>, <<FV1, FV2, FV3, FV4, FV5>>, <<FV5, FV4, FV3, FV2, FV1, FI1, FV1, FV2, FV3>>, <<FI2>>,
-               <<FL, FV1>>, <<FL, FV2, FV3>>, <<FV1, FL>> }
+               <<FL, FV1>>, <<FL, FV2, FV3>>, <<FV1, FL>>, [i \in 1..130 |-> IF i % 2 = 0 THEN FV1 ELSE FV5] }
 SubsInit == BothUp(SNames)
 SubsNext == steps < MaxSteps /\
   \/ \E c \in {c1, c2} : Connect(c, KOf(c), TRUE, NoWill)
